@@ -55,9 +55,10 @@ type rewriter struct {
 	n        int
 	changed  bool
 	needVrt  bool
-	skipComm map[ast.Node]bool       // comm statements/expressions of select clauses
-	mode     map[ast.Expr]accessMode // marks for candidate access expressions
-	wrap     map[ast.Expr]bool       // expressions decided (in pre) to be wrapped
+	skipComm map[ast.Node]bool          // comm statements/expressions of select clauses
+	mode     map[ast.Expr]accessMode    // marks for candidate access expressions
+	wrap     map[ast.Expr]bool          // expressions decided (in pre) to be wrapped
+	siteOf   map[ast.Node]*ast.BasicLit // sites computed on the original tree
 	isClose  map[*ast.CallExpr]bool
 	makeElem map[*ast.CallExpr]ast.Expr
 	delMap   map[*ast.CallExpr]bool
@@ -68,6 +69,9 @@ type rewriter struct {
 }
 
 func (r *rewriter) site(n ast.Node) *ast.BasicLit {
+	if s, ok := r.siteOf[n]; ok {
+		return s
+	}
 	p := r.fset.Position(n.Pos())
 	return &ast.BasicLit{Kind: token.STRING, Value: strconv.Quote(filepath.Base(p.Filename) + ":" + strconv.Itoa(p.Line))}
 }
@@ -178,6 +182,14 @@ func (r *rewriter) builtin(c *ast.CallExpr, name string) bool {
 // pre runs on the original tree (parents before children) and records every
 // type-derived decision.
 func (r *rewriter) pre(c *astutil.Cursor) bool {
+	if n := c.Node(); n != nil && n.Pos().IsValid() {
+		switch n.(type) {
+		case *ast.SelectorExpr, *ast.IndexExpr, *ast.GoStmt, *ast.SendStmt, *ast.UnaryExpr, *ast.CallExpr, *ast.SelectStmt, *ast.RangeStmt:
+			// positions are taken from the original tree: children may have been replaced by position-less nodes later
+			p := r.fset.Position(n.Pos())
+			r.siteOf[n] = &ast.BasicLit{Kind: token.STRING, Value: strconv.Quote(filepath.Base(p.Filename) + ":" + strconv.Itoa(p.Line))}
+		}
+	}
 	switch n := c.Node().(type) {
 	case *ast.SelectStmt:
 		if _, lab := c.Parent().(*ast.LabeledStmt); lab {
@@ -619,7 +631,7 @@ func main() {
 				fatalf(3, "ENGINE-ERROR %v", err)
 			}
 			r := &rewriter{fset: pkg.Fset, info: pkg.TypesInfo, pkg: pkg.Types, file: name, race: *race,
-				skipComm: map[ast.Node]bool{}, mode: map[ast.Expr]accessMode{}, wrap: map[ast.Expr]bool{},
+				skipComm: map[ast.Node]bool{}, mode: map[ast.Expr]accessMode{}, wrap: map[ast.Expr]bool{}, siteOf: map[ast.Node]*ast.BasicLit{},
 				isClose: map[*ast.CallExpr]bool{}, makeElem: map[*ast.CallExpr]ast.Expr{}, delMap: map[*ast.CallExpr]bool{},
 				lenMap: map[*ast.CallExpr]bool{}, rangeK: map[*ast.RangeStmt]string{}, mapIdx: map[*ast.IndexExpr]bool{}}
 			res := astutil.Apply(f, r.pre, r.post).(*ast.File)
